@@ -325,7 +325,40 @@ def strategy(focus="membership"):
     return cases()
 
 
+def subscription_change_cases(shard, nshards, step):
+    """A member replaces its subscription (subscribe() with other topics, or a second subscribe back) at a swept
+    instant while one SyncGroup or JoinGroup reply of the group is held back for 0.4 s: the change lands before the
+    join, between the JoinGroup reply and the SyncGroup reply, or after the join completed.  The member has to end up
+    in the latest generation with the partitions of its new subscription in every case."""
+    i = 0
+    for sel in ("sync", "join"):
+        for k in (0, 1, 2, 3):
+            for who in (0, 1):
+                for start1 in (0.0, 0.3):
+                    d = 0.0
+                    while d <= 1.3001:
+                        i += 1
+                        if i % nshards == shard:
+                            members = [{"topics": ["t0"], "start_at": 0.0, "callback_delay": 0, "ops": [], "loop_poll": "getmany"},
+                                       {"topics": ["t0"], "start_at": start1, "callback_delay": 0, "ops": [], "loop_poll": "getmany"}]
+                            members[who]["ops"] = [["sleep", round(d, 3)], ["subscribe", ["t1"]]] + \
+                                ([["sleep", 0.05], ["subscribe", ["t0", "t1"]]] if k % 2 else [])
+                            yield {"cfg": {"assignors": ["range"], "session_timeout_ms": 1000, "heartbeat_interval_ms": 100,
+                                           "rebalance_timeout_ms": 1500, "retry_backoff_ms": 10, "request_timeout_ms": 2000,
+                                           "auto_commit": True, "auto_commit_interval_ms": 200, "metadata_max_age_ms": 1000,
+                                           "max_poll_interval_ms": 300000},
+                                   "cluster": {"nodes": 1, "topics": {"t0": 2, "t1": 2}, "join_max": 5, "group_coord": 0,
+                                               "initial": [3, 2]},
+                                   "members": members, "kills": [],
+                                   "faults": [{"sel": sel, "k": k, "act": "delay", "code": 0, "delay": 0.4}], "env": [],
+                                   "run_for": 3.0, "lat": [0.001], "chunks": [0], "rng_seed": 11}
+                        d += step
+
+
 def campaigns(tier):
     th = tier == "thorough"
     return [Campaign("group_sim", "hyp", execute=execute, strategy=strategy, examples=12000 if th else 1280,
-                     setup=GS.setup, max_wall=1000 if th else 110, shrink_wall=40)]
+                     setup=GS.setup, max_wall=1000 if th else 110, shrink_wall=40),
+            Campaign("subscription_change", "enum", execute=execute,
+                     cases=lambda s, n: subscription_change_cases(s, n, 0.0125 if th else 0.05), exhaustive=True,
+                     setup=GS.setup)]
